@@ -648,3 +648,42 @@ def c08(chk):
     chk.assumptions += ["Ed25519 only (the algorithm of the shipped in-memory store); an empty attached payload is excluded as in the "
                         "property",
                         "a custom header parameter colliding with a set parameter must be refused or yield a decodable token"]
+
+
+# ------------------------------------------------------------------------------------------------
+# C02 — JWT credential validation
+# ------------------------------------------------------------------------------------------------
+
+def flip_validation_case(rows, k=3):
+    out = []
+    for r in rows:
+        if r["out"].get("accept") is True:
+            r = json.loads(json.dumps(r))
+            r["out"]["accept"] = False
+            r["out"]["errs"] = ["signature"]
+            out.append(r)
+            if len(out) >= k:
+                break
+    if not out:
+        raise ToolError("canary: no accepted row")
+    return out
+
+
+@plan("C02")
+def c02(chk):
+    chk.rule = ("TLC enumerates (a) the full signature-phase product: kid as full id of any of 9 (DID, fragment) pairs / fragment "
+                "only / absent / unparsable x configured method id (none or any of the 9) x scope none/assertionMethod/"
+                "authentication x signing key K1/K2 x issuer claim (3 DIDs) x nonce on either side (3x3) x trusted documents "
+                "(issuer only / issuer + a foreign document listing the same key) = 38 880 rows; (b) the full unit-phase product: "
+                "issuance -1/0/+1 s, expiry absent/-1/0/+1 s, 4 structures, 4 subject-holder modes x holder x nonTransferable, 6 "
+                "status shapes x 3 status modes, fail-fast vs all-errors = 27 648 rows; (c) 60 rows with one failing condition in "
+                "each phase. The spec computes acceptance and the set of error kinds of the false conditions. Every row is issued "
+                "as a real EdDSA-signed JWT against real documents and run through validate / verify_signature: accept <=> all "
+                "conditions; a rejection must name a false condition (all of them when all errors are requested); the returned "
+                "credential and custom claims must be the signed ones.")
+    r = chk.mc("CredentialValidation", "CredentialValidation_%s.cfg" % chk.tier, workers=4, timeout=900, heap="6g")
+    chk.replay(r["cases_file"], timeout=7000)
+    chk.canary_cases(r["cases_file"], flip_validation_case)
+    chk.assumptions += ["validation bounds are set explicitly (no dependence on the current time)",
+                        "with fail-fast any one false condition's error is accepted (the property says 'an error identifying it')",
+                        "Ed25519 primitive trusted; status checking with RevocationBitmap2022 only"]
